@@ -67,7 +67,7 @@ class _SimReadFile:
 
     def read(self, size=-1):
         w = self.world
-        kind = w.seam("read", self.name)
+        kind = w.seam("read", self.name, skip=(None if self._text else ("BADUTF8",)))
         if kind == "EIO":
             w.event("fail", self.name, "read:EIO:injected")
             raise make_oserror("EIO")
@@ -190,7 +190,15 @@ class _SimStream:
             w.event("fail", "<%s>" % self.name, "EPIPE:injected")
             raise make_oserror("EPIPE")
         self.chunks.append(raw)
-        w.event(self.name, "<%s>" % self.name, len(raw))
+        if raw and raw != b"\n":
+            if self.name == "stderr" and raw.startswith(b"File '") and b"' was written in format '" in raw:
+                # acknowledgement line: keep its position in the event order
+                try:
+                    w.event("ack", raw[6:raw.rindex(b"' was written in format '")].decode("utf-8"), None)
+                except (ValueError, UnicodeDecodeError):
+                    pass
+            else:
+                w.event(self.name, "<%s>" % self.name, len(raw))
         return len(raw)
 
     def write(self, s):
@@ -281,7 +289,7 @@ class World:
         self.seq += 1
         self.events.append((self.seq, op, path, detail))
 
-    def seam(self, seam, path):
+    def seam(self, seam, path, skip=None):
         n = self.seam_counts.get(seam, 0)
         self.seam_counts[seam] = n + 1
         self.seam_log.append((seam, n, path))
@@ -289,6 +297,8 @@ class World:
         if hit is None:
             return None
         kind, arg = hit
+        if skip and kind in skip:
+            return None      # e.g. "not valid UTF-8" is not a fault for a binary read
         self.fault_arg = arg
         self.fired.append((seam, n, kind, path))
         d = self.ns.deferred
@@ -314,7 +324,14 @@ class World:
             path = path.decode()
         rpath = self.resolve(path)
         if not self.in_sim(rpath):
-            return self._real_open(file, mode, buffering, encoding, errors, newline, closefd, opener)
+            if "r" in mode and "+" not in mode:
+                # traceback/linecache/platform read real files; reads are harmless
+                return self._real_open(file, mode, buffering, encoding, errors, newline, closefd, opener)
+            # the real disk is never written: outside the simulated root everything is read-only
+            self.seam("open-w", rpath)
+            self.event("fail", rpath, "open-w:EACCES:natural")
+            self.natural_io.append(("out", rpath, "EACCES"))
+            raise make_oserror("EACCES", rpath)
         text = "b" not in mode
         if "r" in mode and "+" not in mode:
             return self._open_read(rpath, text, encoding)
